@@ -592,9 +592,14 @@ where
         {
             return false;
         }
-        dst.extend(&bytes[last_match..m.start()]);
         // See `find_iter_at_in_context`: the match may reach beyond the range.
-        last_match = std::cmp::min(m.end(), range.end);
+        // Its expansion could then copy bytes that are not part of the lines
+        // we were given, so such a match is left alone.
+        if m.end() > range.end {
+            return false;
+        }
+        dst.extend(&bytes[last_match..m.start()]);
+        last_match = m.end();
         append(caps, dst)
     })?;
     let end = std::cmp::min(bytes.len(), range.end);
